@@ -72,6 +72,16 @@ type queryInfo struct {
 	groupsInRng  int
 	hint         bool   // full_series hint
 	skipped      string // reason the soundness check was not applied
+	// time range the mapper was given
+	lowerBound, upperBound bool // the range has a lower / an upper bound
+	rangeNanos             int64
+	widthsInRng            int  // distinct widths (end-start) of the live groups the range overlaps
+	crossesBoundary        bool // a start or end of a live group lies strictly inside the range
+	overlapInRng           bool // two live groups in range overlap each other
+	// a live group G overlapping the range is preceded, in the catalogue's order (sorted by END time), by a live group
+	// that starts after the range's max ("window inside a wide group but before a narrow group of the same span")
+	beforeEarlierSorted      bool
+	beforeEarlierSortedMatch bool // ... and G holds a row that satisfies the query
 }
 
 type caseStats struct {
@@ -82,6 +92,21 @@ type caseStats struct {
 	reordered     int // post-reshard batches whose generated row order was replaced by descending time order
 	alters        int
 	queries       []queryInfo
+	// shard-group duration changes (ALTER RETENTION POLICY ... SHARD DURATION)
+	durChanges      int
+	lengthened      int
+	shortened       int
+	unalignedChange int    // old and new duration are not multiples of each other
+	groupIDAtChange uint64 // MaxShardGroupID when the last change was applied
+	widths          int    // distinct widths of the live groups at the end
+	overlapPairs    int    // pairs of live groups that overlap at the end (only counted, see runCase)
+	containedPairs  int    // ... of which one group lies inside the other
+	rowsOldWidth    int    // rows delivered, after a change, to a group created before that change with another width
+	rowsNewWidth    int    // rows delivered, after a change, to a group created after it
+	rowsInTwoGroups int    // rows whose timestamp >= 2 live groups contain
+	rewritesInTwo   int    // re-writes of such points
+	movedInOverlap  int    // re-writes that went to another one of the containing groups (accepted, see checkedWrite)
+	newNextToOld    int    // groups created after a change that touch or overlap a group of another width
 }
 
 type violation struct {
@@ -116,10 +141,32 @@ func runCase(cd caseDesc, o runOpts) (*caseStats, error) {
 	for i, p := range cd.Ops {
 		switch p.Kind {
 		case "ddl":
+			var durBefore time.Duration
+			if rp, err := cl.data.RetentionPolicy(dbName, rpName); err == nil {
+				durBefore = rp.ShardGroupDuration
+			}
 			if err := cl.ddl(p.Text); err != nil {
 				return st, herr("op %d ddl %q: %v", i, p.Text, err)
 			}
-			if strings.HasPrefix(strings.ToUpper(p.Text), "ALTER") {
+			up := strings.ToUpper(strings.TrimSpace(p.Text))
+			if strings.HasPrefix(up, "ALTER RETENTION POLICY") {
+				after, err := cl.data.RetentionPolicy(dbName, rpName)
+				if err != nil {
+					return st, herr("rp: %v", err)
+				}
+				if d := after.ShardGroupDuration; d != durBefore {
+					st.durChanges++
+					if d > durBefore {
+						st.lengthened++
+					} else {
+						st.shortened++
+					}
+					if d%durBefore != 0 && durBefore%d != 0 {
+						st.unalignedChange++
+					}
+					st.groupIDAtChange = cl.data.MaxShardGroupID
+				}
+			} else if strings.HasPrefix(up, "ALTER") {
 				st.alters++
 			}
 		case "write":
@@ -156,8 +203,17 @@ func runCase(cd caseDesc, o runOpts) (*caseStats, error) {
 		return st, herr("rp: %v", err)
 	}
 	st.groups = len(rpi.ShardGroups)
+	widths := map[time.Duration]bool{}
+	for i := range rpi.ShardGroups {
+		if g := &rpi.ShardGroups[i]; !g.Deleted() {
+			widths[g.EndTime.Sub(g.StartTime)] = true
+		}
+	}
+	st.widths = len(widths)
 	if st.reshards == 0 {
-		// without resharding the groups of a policy partition time: no two live groups overlap
+		// without resharding the groups of a policy partition time: no two live groups overlap.
+		// After a change of the policy's shard-group duration live groups DO overlap on the pinned tree: that is the known
+		// finding C16-overlap-after-shard-duration-change of property C16 - for such histories the pairs are only counted.
 		for i := range rpi.ShardGroups {
 			for j := i + 1; j < len(rpi.ShardGroups); j++ {
 				a, b := &rpi.ShardGroups[i], &rpi.ShardGroups[j]
@@ -165,7 +221,32 @@ func runCase(cd caseDesc, o runOpts) (*caseStats, error) {
 					continue
 				}
 				if a.StartTime.Before(b.EndTime) && b.StartTime.Before(a.EndTime) {
+					if st.durChanges > 0 {
+						st.overlapPairs++
+						if (!a.StartTime.After(b.StartTime) && !a.EndTime.Before(b.EndTime)) || (!b.StartTime.After(a.StartTime) && !b.EndTime.Before(a.EndTime)) {
+							st.containedPairs++
+						}
+						continue
+					}
 					return st, viol("shard groups %d [%s,%s) and %d [%s,%s) overlap", a.ID, a.StartTime, a.EndTime, b.ID, b.StartTime, b.EndTime)
+				}
+			}
+		}
+	}
+	if st.durChanges > 0 {
+		for i := range rpi.ShardGroups {
+			a := &rpi.ShardGroups[i]
+			if a.Deleted() || a.ID <= st.groupIDAtChange {
+				continue
+			}
+			for j := range rpi.ShardGroups {
+				b := &rpi.ShardGroups[j]
+				if i == j || b.Deleted() || b.EndTime.Sub(b.StartTime) == a.EndTime.Sub(a.StartTime) {
+					continue
+				}
+				if !a.StartTime.After(b.EndTime) && !b.StartTime.After(a.EndTime) {
+					st.newNextToOld++
+					break
 				}
 			}
 		}
@@ -234,6 +315,16 @@ func (cl *cluster) checkedWrite(opIdx int, lines []string, seenPoint, seenSeries
 		return nil, viol("op %d: write of valid points failed: %v", opIdx, wr.err)
 	}
 	idx := cl.shardIndex()
+	var liveGroups []*meta2.ShardGroupInfo
+	var curDur time.Duration
+	if rpi, err := cl.data.RetentionPolicy(dbName, rpName); err == nil {
+		curDur = rpi.ShardGroupDuration
+		for i := range rpi.ShardGroups {
+			if !rpi.ShardGroups[i].Deleted() {
+				liveGroups = append(liveGroups, &rpi.ShardGroups[i])
+			}
+		}
+	}
 	got := map[int64]int{}
 	var out []storedRow
 	for _, d := range wr.deliveries {
@@ -272,10 +363,38 @@ func (cl *cluster) checkedWrite(opIdx int, lines []string, seenPoint, seenSeries
 			sr.fields[f.Key] = fieldVal{typ: f.Type, num: f.NumValue, str: f.StrValue}
 		}
 		sr.tagSig = tagSignature(sr.tags)
+		// how many live groups contain the timestamp (> 1 only after a shard-duration change: known finding
+		// C16-overlap-after-shard-duration-change)
+		containing := 0
+		for _, g := range liveGroups {
+			if g.Contains(t) {
+				containing++
+			}
+		}
+		if containing >= 2 {
+			st.rowsInTwoGroups++
+		}
+		if st.durChanges > 0 {
+			if loc.group > st.groupIDAtChange {
+				st.rowsNewWidth++
+			} else if loc.end.Sub(loc.start) != curDur {
+				st.rowsOldWidth++
+			}
+		}
 		pk := fmt.Sprintf("%s|%s|%d", sr.mst, sr.tagSig, ts)
 		if prev, ok := seenPoint[pk]; ok {
 			st.rewrites++
-			if prev != d.shard {
+			if containing >= 2 {
+				st.rewritesInTwo++
+			}
+			if prev != d.shard && containing >= 2 && st.durChanges > 0 {
+				// Several live groups contain the timestamp. The writer takes the group it used for the previous row of
+				// the batch if that contains the timestamp, else the last containing group in catalogue order, so a
+				// re-write legitimately moves to a group that was created (or became the cached one) in between. The
+				// property's "the group containing the timestamp" has no single answer here; every containing group is
+				// accepted (checked above) and only the move is counted.
+				st.movedInOverlap++
+			} else if prev != d.shard {
 				return nil, viol("op %d: point %s %s t=%d was stored in shard %d before and is now routed to shard %d", opIdx, sr.mst, sr.tagSig, ts, prev, d.shard)
 			}
 		}
@@ -445,6 +564,42 @@ func (cl *cluster) checkQuery(text string, stored []storedRow, o runOpts) (*quer
 		dbLevel = true
 	}
 	versions := map[*meta2.ShardKeyInfo]bool{}
+	qi.lowerBound = mr.tmin > influxql.MinTime
+	qi.upperBound = mr.tmax < influxql.MaxTime
+	if qi.lowerBound && qi.upperBound {
+		qi.rangeNanos = mr.tmax - mr.tmin
+	}
+	qmin, qmax := time.Unix(0, mr.tmin), time.Unix(0, mr.tmax)
+	widthsInRng := map[time.Duration]bool{}
+	shadowed := map[uint64]bool{} // groups in range that follow, in catalogue order, a live group starting after the range
+	var inRng []*meta2.ShardGroupInfo
+	laterStartSeen := false
+	for i := range rpi.ShardGroups {
+		g := &rpi.ShardGroups[i]
+		if g.Deleted() {
+			continue
+		}
+		if g.Overlaps(qmin, qmax) {
+			if laterStartSeen {
+				qi.beforeEarlierSorted = true
+				shadowed[g.ID] = true
+			}
+			widthsInRng[g.EndTime.Sub(g.StartTime)] = true
+			if (g.StartTime.After(qmin) && !g.StartTime.After(qmax)) || (g.EndTime.After(qmin) && !g.EndTime.After(qmax)) {
+				qi.crossesBoundary = true
+			}
+			for _, h := range inRng {
+				if h.StartTime.Before(g.EndTime) && g.StartTime.Before(h.EndTime) {
+					qi.overlapInRng = true
+				}
+			}
+			inRng = append(inRng, g)
+		}
+		if g.StartTime.After(qmax) {
+			laterStartSeen = true
+		}
+	}
+	qi.widthsInRng = len(widthsInRng)
 	for i := range rpi.ShardGroups {
 		g := &rpi.ShardGroups[i]
 		if g.Deleted() || !g.Overlaps(time.Unix(0, mr.tmin), time.Unix(0, mr.tmax)) {
@@ -517,6 +672,12 @@ func (cl *cluster) checkQuery(text string, stored []storedRow, o runOpts) (*quer
 	}
 
 	matchShards := map[uint64]bool{}
+	shardGroupOf := map[uint64]uint64{}
+	if len(shadowed) > 0 {
+		for id, loc := range cl.shardIndex() {
+			shardGroupOf[id] = loc.group
+		}
+	}
 	for _, m := range msts {
 		mi, err := cl.data.Measurement(dbName, rpName, m)
 		if err != nil {
@@ -544,6 +705,9 @@ func (cl *cluster) checkQuery(text string, stored []storedRow, o runOpts) (*quer
 			}
 			qi.matches++
 			matchShards[r.shard] = true
+			if len(shadowed) > 0 && shadowed[shardGroupOf[r.shard]] {
+				qi.beforeEarlierSortedMatch = true
+			}
 			if !mr.shards[m][r.shard] {
 				return qi, viol("query %q (condition given to the shard mapper: %q, time range [%d, %d]) consults shards %v of measurement %s, but row id %d {%s t=%d} which satisfies the condition is stored in shard %d",
 					text, mr.cond, mr.tmin, mr.tmax, sortedIDs(mr.shards[m]), m, r.id, r.tagSig, r.ts, r.shard)
